@@ -22,6 +22,31 @@ fn unit_identity() {
     assert!(DateTime::<unit::Second>::new(x).into_unit::<unit::Second>().0 == x);
 }
 
+// every conversion is total (no overflow panic) wherever the result is representable: coarser -> finer for |x| <= i64::MAX / ratio,
+// finer -> coarser everywhere.  (The VALUE of the conversion - the floor law - is the Verus contract of into_unit; this harness only
+// needs CBMC to decide overflow checks, which it does in well under a second.)
+macro_rules! unit_total {
+    ($name:ident, $fine:ty, $coarse:ty, $ratio:expr) => {
+        #[kani::proof]
+        fn $name() {
+            let x: i64 = kani::any();
+            let down = DateTime::<$fine>::new(x).into_unit::<$coarse>();
+            assert!(down.is_nat() == (x == i64::MIN));
+            let y: i64 = kani::any();
+            kani::assume(y >= -(i64::MAX / $ratio) && y <= i64::MAX / $ratio);
+            let up = DateTime::<$coarse>::new(y).into_unit::<$fine>();
+            assert!(!up.is_nat());
+            kani::cover!(y == i64::MAX / $ratio);
+        }
+    };
+}
+unit_total!(unit_identity_total_ns_us, unit::Nanosecond, unit::Microsecond, RATIO_NS_US);
+unit_total!(unit_identity_total_ns_ms, unit::Nanosecond, unit::Millisecond, RATIO_NS_MS);
+unit_total!(unit_identity_total_ns_s, unit::Nanosecond, unit::Second, RATIO_NS_S);
+unit_total!(unit_identity_total_us_ms, unit::Microsecond, unit::Millisecond, 1_000);
+unit_total!(unit_identity_total_us_s, unit::Microsecond, unit::Second, 1_000_000);
+unit_total!(unit_identity_total_ms_s, unit::Millisecond, unit::Second, 1_000);
+
 #[kani::proof]
 fn nat_optional_integer() {
     let x: i64 = kani::any();
@@ -67,6 +92,33 @@ fn nat_absorbed_datetime_ops() {
     assert!((DateTime::<unit::Microsecond>::nat() - d).is_nat());
     assert!((d - DateTime::<unit::Microsecond>::nat()).is_nat());
 }
+
+// BOUNDED in the duration: a NaT date-time with each of a fixed list of month-free durations (whole units, sub-unit, both signs).
+// Concrete durations keep a version of the operators that computes on the duration before looking at the date-time
+// tractable (with a symbolic duration CBMC does not finish the divisions it would introduce: measured > 20 min).
+macro_rules! nat_dt_listed {
+    ($name:ident, $u:ty) => {
+        #[kani::proof]
+        fn $name() {
+            let k: u8 = kani::any();
+            let inner = match k % 6 {
+                0 => Duration::seconds(1),
+                1 => Duration::seconds(-1),
+                2 => Duration::days(1),
+                3 => Duration::microseconds(-5),
+                4 => Duration::nanoseconds(1),
+                _ => Duration::zero(),
+            };
+            let td = TimeDelta { months: 0, inner };
+            assert!((DateTime::<$u>::nat() + td).is_nat());
+            assert!((DateTime::<$u>::nat() - td).is_nat());
+            kani::cover!(k % 6 == 1);
+        }
+    };
+}
+nat_dt_listed!(nat_absorbed_datetime_listed_durations_s, unit::Second);
+nat_dt_listed!(nat_absorbed_datetime_listed_durations_us, unit::Microsecond);
+nat_dt_listed!(nat_absorbed_datetime_listed_durations_ns, unit::Nanosecond);
 
 #[kani::proof]
 fn nat_absorbed_timedelta_ops() {
